@@ -146,6 +146,86 @@ fn char_strings(max_len: usize, total: &mut Stats) -> u64 {
     count
 }
 
+/// Lexical level, string literals: every literal body up to 3 characters over an alphabet of
+/// escape-sequence material, in every syntactic position that reads a string literal in its own
+/// way (expression, import path, match arm value, inside a function body, operand of an operator)
+fn string_literal_contexts(total: &mut Stats) -> u64 {
+    const BODY: &[&str] = &["a", "\\", "q", "n", "u", "{", "}", "0", "1", "x", "\u{0}", "é", "'", " "];
+    const CONTEXTS: &[&str] = &[
+        "\"BODY\"",
+        "import \"BODY\"",
+        "m := import \"BODY\"; m",
+        "f := () -> any { return import \"BODY\" }",
+        "match \"a\" { (\"BODY\") => 1, => 0, }",
+        "\"BODY\"[0]",
+        "\"BODY\" + \"BODY\"",
+        "std.len(\"BODY\")",
+        "s := struct{ a := \"BODY\" }; s.a",
+    ];
+    let mut bodies: Vec<String> = vec![String::new()];
+    let mut last: Vec<String> = vec![String::new()];
+    for _ in 0..3 {
+        let mut next = Vec::new();
+        for b in &last {
+            for c in BODY {
+                next.push(format!("{b}{c}"));
+            }
+        }
+        bodies.extend(next.iter().cloned());
+        last = next;
+    }
+    let n = bodies.len() * CONTEXTS.len();
+    let states = par_fold(
+        n,
+        || (Stats::default(), env_interpreter()),
+        |(st, interp), i| {
+            let text = CONTEXTS[i % CONTEXTS.len()].replace("BODY", &bodies[i / CONTEXTS.len()]);
+            probe(&text, interp, "env", false, st);
+        },
+    );
+    for (s, _) in states {
+        total.merge(s);
+    }
+    n as u64
+}
+
+/// Lexical level, integer literals: 2^k - 1, 2^k, 2^k + 1 for k = 0..=65 (so every magnitude
+/// around i64::MAX, u64::MAX and beyond) in the four radixes, plain and with digit separators,
+/// in every position that reads an integer literal
+fn int_literal_ladder(total: &mut Stats) -> u64 {
+    const CONTEXTS: &[&str] = &["N", "-N", "x := N; x", "(1, 2).N", "f := () -> int { return N }", "1 << N", "[1, 2][N]", "[1, 2][N:]", "match 1 { N => 1, => 0, }"];
+    let mut lits: Vec<String> = Vec::new();
+    for k in 0..=65u32 {
+        for d in [-1i8, 0, 1] {
+            let v: u128 = ((1u128 << k) as i128 + d as i128) as u128;
+            lits.push(format!("{v}"));
+            lits.push(format!("0x{v:x}"));
+            lits.push(format!("0X{v:X}"));
+            lits.push(format!("0o{v:o}"));
+            lits.push(format!("0b{v:b}"));
+            let dec = format!("{v}");
+            if dec.len() > 3 {
+                lits.push(format!("{}_{}", &dec[..dec.len() - 3], &dec[dec.len() - 3..]));
+            }
+        }
+    }
+    lits.sort();
+    lits.dedup();
+    let n = lits.len() * CONTEXTS.len();
+    let states = par_fold(
+        n,
+        || (Stats::default(), env_interpreter()),
+        |(st, interp), i| {
+            let text = CONTEXTS[i % CONTEXTS.len()].replace('N', &lits[i / CONTEXTS.len()]);
+            probe(&text, interp, "env", true, st);
+        },
+    );
+    for (s, _) in states {
+        total.merge(s);
+    }
+    n as u64
+}
+
 /// programs exercising every documented construct; each must be accepted unmutated
 pub const CONSTRUCT_CORPUS: &[&str] = &[
     "x := 5; y := 5.0; text := \"Hello\\n world\"; arr := [\"int\", 7.0, 4]; z := [0; 5]; t := (5, 7.8, \"value\"); { t := (4, \"rgg\", 56); t }; t",
@@ -403,6 +483,14 @@ pub fn run(tier: &str) -> i32 {
     // (b) short character strings
     let n_chars = char_strings(3, &mut total);
     parts.insert("char_strings".into(), json!({"alphabet": CHARS.len(), "max_len": 3, "count": n_chars}));
+
+    // (b2) string literal bodies x positions
+    let n_lit = string_literal_contexts(&mut total);
+    parts.insert("string_literal_contexts".into(), json!({"body_alphabet": 14, "max_body_len": 3, "contexts": 9, "count": n_lit}));
+
+    // (b3) integer literal magnitudes x radixes x positions
+    let n_int = int_literal_ladder(&mut total);
+    parts.insert("int_literal_ladder".into(), json!({"magnitudes": "2^k - 1, 2^k, 2^k + 1 for k = 0..=65", "radixes": 4, "contexts": 9, "count": n_int}));
 
     // (c) corpus mutations
     let (n_prog, n_ok, n_mut) = corpus_mutations(thorough, &mut total, &mut samples);
